@@ -40,8 +40,10 @@ def _session(job):
     floss = inp["c"]["floss"]
     sort_labels = fam == "un"
 
-    def one(variant, pinp, to, ts, unperm=None, policy="ALL", naming="unique", **kw):
-        res = mcm.run_algo(A, algo, pinp, policy=policy, naming=naming)
+    keep = {}
+
+    def one(variant, pinp, to, ts, unperm=None, policy="ALL", naming="unique", reuse=None, **kw):
+        res = mcm.run_algo(A, algo, pinp, policy=policy, naming=naming, reuse=reuse)
         if isinstance(res, mc.Raised):
             errors.append((variant, res.text))
             return None
@@ -49,9 +51,10 @@ def _session(job):
         events.append(mcm.meta_event(algo, variant, res, opt, floss=floss, **kw))
         return res
 
-    if one("base", inp, TO, TS) is None:
+    if one("base", inp, TO, TS, reuse=keep) is None:
         return inp, algo, events, errors
-    one("again", inp, TO, TS)
+    one("again", inp, TO, TS, reuse=keep)      # the very same input object, solved a second time
+    one("again", inp, TO, TS)                  # and a freshly built one
     ro, rs = mcm.reorder(rng, inp["ot"]), mcm.reorder(rng, inp["st"])
     one("reorder", mcm.present(inp, ro, rs), ro, rs)
     fams = sorted({f for s in inp["syn"] for f in s} | set(inp["root"]))
